@@ -1432,7 +1432,7 @@ pub fn codegen(
                         let errors = ctx
                             .undefined
                             .iter()
-                            .sorted_by_key(|k| k.id.to_string())
+                            .sorted_by_key(|k| (k.id.to_string(), k.span))
                             .map(|item| {
                                 let mut diag = Diagnostic::error()
                                     .with_message(format!("unknown identifier: {}", item.id));
